@@ -59,6 +59,7 @@ TRANSPARENT = {
     "std::vec::Vec::as_mut_slice": (0, ()),
     "std::result::Result::unwrap_or": (0, ()),
     "std::option::Option::unwrap_or": (0, ()),
+    "std::result::Result::map_err": (0, ()),      # the Ok payload passes through unchanged
     "std::convert::TryInto::try_into": (0, ()),
     "std::convert::TryFrom::try_from": (0, ()),
     "<T as std::convert::TryFrom<U>>::try_from": (0, ()),
